@@ -528,6 +528,9 @@ def _build_arakawa(w):
         yn, xn = names[kind]
         coords[yn] = xarray.DataArray(q2f(ya), dims=dims[kind], attrs={"units": "degrees_north"})
         coords[xn] = xarray.DataArray(q2f(xa), dims=dims[kind], attrs={"units": "degrees_east"})
+        if w.get("x_transposed") and kind in w["x_transposed"]:
+            # the longitudes of this grid stored (i, j) while the latitudes are stored (j, i): same labels, other storage order
+            coords[xn] = xarray.DataArray(q2f(xa).T, dims=list(dims[kind])[::-1], attrs={"units": "degrees_east"})
         if w.get("lon_dtype"):
             # longitudes on whole degrees stored in an integer (or single precision) type, latitudes left as doubles
             narrow = coords[xn].values.astype(w["lon_dtype"])
@@ -634,9 +637,15 @@ def _build_ugrid(w):
     if enc.get("coord_sep") and enc.get("coord_sep_nodes", True):
         # CF blank-separated lists may be separated by any amount of white space
         mesh_attrs["node_coordinates"] = "Mesh2_node_x" + enc["coord_sep"] + "Mesh2_node_y"
+    if enc.get("dangling_en") and "edge_node_connectivity" not in mesh_attrs:
+        # the attribute names an edge-node variable the file does not contain (a quirk the library documents and tolerates)
+        mesh_attrs["edge_node_connectivity"] = "Mesh2_edge_nodes"
     data_vars["Mesh2"] = xarray.DataArray(numpy.int32(0), attrs=mesh_attrs)
     ds = xarray.Dataset(data_vars=data_vars, coords=coords)
     ds.attrs["Conventions"] = "UGRID-1.0"
+    if enc.get("conn_as_coords"):
+        # optional connectivity tables flagged as coordinates (set_coords, or a `coordinates` attribute naming them)
+        ds = ds.set_coords([n for n in enc["conn_as_coords"] if n in ds.variables])
     return ds
 
 
